@@ -357,4 +357,27 @@ def oauthCallback (emailOK : Bytes → Bool) (i : CbIn) : CbOut :=
           else if !emailOK e then .error 403
           else .session e i.stateRedirect
 
+/-! ### the CSRF cookie across a browser's history at the authenticator (C09, history level) -/
+
+inductive CEv where
+  | start (nonce : String)            -- OAuthStart: `SetCSRF(nonce)`
+  | callback (i : CbIn)               -- OAuthCallback; `i.csrfCookie` is ignored, the jar is what the browser sends
+  deriving Repr
+
+/-- the callback gets as far as reading the cookie (everything `getOAuthCallback` checks before `GetCSRF` passed) -/
+def readsCookie (i : CbIn) : Bool :=
+  i.errorParam = "" && i.code ≠ "" && (match i.login with | .session e _ _ _ => e ≠ [] | _ => false) && i.stateDecodes && i.stateHasColon
+
+/-- the jar after one event -/
+def jarStep (jar : Option String) : CEv → Option String
+  | .start n => some n
+  | .callback i => if readsCookie i && jar.isSome then none else jar
+
+def jarOf (evs : List CEv) : Option String := evs.foldl jarStep none
+
+/-- what the callback answers in a history: the model's `oauthCallback` fed with the jar -/
+def callbackIn (emailOK : Bytes → Bool) (pre : List CEv) (i : CbIn) : CbOut :=
+  oauthCallback emailOK { i with csrfCookie := jarOf pre }
+
+
 end Sso.AuthN
